@@ -22,7 +22,13 @@ import (
 
 var idRe = regexp.MustCompile(`\\?"id\\?":\\?"[^"\\]*\\?"`)
 
-func stripIDs(s string) string { return idRe.ReplaceAllString(s, `"id":"X"`) }
+// ptrRe: validation messages print offending values with %#v; pointers inside collections appear as
+// addresses, which differ from run to run without any sharing between requests.
+var ptrRe = regexp.MustCompile(`\(0x[0-9a-f]{6,}\)`)
+
+func stripIDs(s string) string {
+	return ptrRe.ReplaceAllString(idRe.ReplaceAllString(s, `"id":"X"`), "(0xPTR)")
+}
 
 // observable renders everything a client/service could observe of an exchange, without per-run noise.
 func observable(ex *rt.Exchange) map[string]string {
